@@ -33,11 +33,11 @@ def crash_site(out):
         return None
     tail = out[m.start():]
     repo = os.path.abspath(REPO).rstrip("/") + "/"
-    if "deadlock: all goroutines in bubble are blocked" in m.group(1):
+    if "deadlock: all goroutines in bubble are blocked" in m.group(1) or "all goroutines are asleep - deadlock" in m.group(1):
         # a synctest bubble with nothing left to run. It is the code under test's doing when a goroutine of the HARNESS is
         # blocked inside a call into the repository (an API call that never returns): frames of the repository come before
         # the first harness frame on that goroutine's stack. Idle goroutines of the repository alone prove nothing.
-        for g in re.findall(r"\ngoroutine \d+ \[[^\n]*synctest bubble[^\n]*\]:\n(.*?)(?=\n\ngoroutine |\Z)", tail, re.S):
+        for g in re.findall(r"\ngoroutine \d+ \[[^\n]*\]:\n(.*?)(?=\n\ngoroutine |\Z)", tail, re.S):
             frames = re.findall(r"^\t(/[^\s:]+\.go):(\d+)", g, re.M)
             user = [f for f in frames if not (f[0].startswith("/opt/veriftools/") or "/src/runtime/" in f[0] or "/src/testing/" in f[0] or "/src/internal/" in f[0])]
             if user and (user[0][0].startswith(repo) or user[0][0].startswith("/repo/")) and any("/verif/harness/" in f[0] for f in user):
